@@ -6,6 +6,9 @@
 
 use std::collections::BTreeMap;
 use std::os::fd::AsRawFd;
+#[cfg(rustradio_verif)]
+use crate::verif::sync::{Arc, Condvar, Mutex};
+#[cfg(not(rustradio_verif))]
 use std::sync::{Arc, Condvar, Mutex};
 
 use libc::{MAP_FAILED, MAP_FIXED, MAP_SHARED, PROT_READ, PROT_WRITE};
@@ -416,6 +419,14 @@ impl<T: Copy> Buffer<T> {
         }
         s.rpos = newpos;
         s.used -= n;
+        #[cfg(rustradio_verif)]
+        crate::verif::emit(format!(
+            "\"ev\":\"consume\",\"m\":{},\"n\":{n},\"rpos\":{},\"wpos\":{},\"used\":{}",
+            s.id(),
+            s.rpos,
+            s.wpos,
+            s.used
+        ));
         cv.notify_all();
     }
 
@@ -454,6 +465,15 @@ impl<T: Copy> Buffer<T> {
         }
         s.wpos = (s.wpos + n) % s.capacity();
         s.used += n;
+        #[cfg(rustradio_verif)]
+        crate::verif::emit(format!(
+            "\"ev\":\"produce\",\"m\":{},\"n\":{n},\"ntags\":{},\"rpos\":{},\"wpos\":{},\"used\":{}",
+            s.id(),
+            tags.len(),
+            s.rpos,
+            s.wpos,
+            s.used
+        ));
         cv.notify_all();
     }
 
@@ -497,6 +517,15 @@ impl<T: Copy> Buffer<T> {
                 ));
             }
         }
+        #[cfg(rustradio_verif)]
+        crate::verif::emit(format!(
+            "\"ev\":\"acqr\",\"m\":{},\"start\":{start},\"end\":{end},\"ntags\":{},\"rpos\":{},\"wpos\":{},\"used\":{}",
+            s.id(),
+            tags.len(),
+            s.rpos,
+            s.wpos,
+            s.used
+        ));
         drop(s);
         tags.sort_by_key(|a| a.pos());
         Ok((BufferReader::new(self, start, end), tags))
@@ -506,11 +535,52 @@ impl<T: Copy> Buffer<T> {
     pub fn write_buf(self: Arc<Self>) -> Result<BufferWriter<T>> {
         let s = self.state.0.lock().unwrap();
         let (start, end) = s.write_range();
+        #[cfg(rustradio_verif)]
+        crate::verif::emit(format!(
+            "\"ev\":\"acqw\",\"m\":{},\"start\":{start},\"end\":{end},\"rpos\":{},\"wpos\":{},\"used\":{}",
+            s.id(),
+            s.rpos,
+            s.wpos,
+            s.used
+        ));
         drop(s);
         Ok(BufferWriter::new(
             //unsafe { std::mem::transmute::<&mut [T], &mut [T]>(buf) },
             self, start, end,
         ))
+    }
+}
+
+#[cfg(rustradio_verif)]
+impl<T> Buffer<T> {
+    /// (rpos, wpos, used, capacity, [(tag position, number of tags)]).
+    pub fn verif_state(&self) -> (usize, usize, usize, usize, Vec<(usize, usize)>) {
+        let s = self.state.0.lock().unwrap();
+        (
+            s.rpos,
+            s.wpos,
+            s.used,
+            s.capacity(),
+            s.tags.iter().map(|(k, v)| (*k, v.len())).collect(),
+        )
+    }
+    /// Identity of the state mutex, as used in events.
+    pub fn verif_id(&self) -> usize {
+        self.state.0.id()
+    }
+}
+#[cfg(rustradio_verif)]
+impl<T: Copy> BufferReader<T> {
+    /// Window range in samples, as snapshotted.
+    pub fn verif_range(&self) -> (usize, usize) {
+        (self.start, self.end)
+    }
+}
+#[cfg(rustradio_verif)]
+impl<T: Copy> BufferWriter<T> {
+    /// Window range in samples, as snapshotted.
+    pub fn verif_range(&self) -> (usize, usize) {
+        (self.start, self.end)
     }
 }
 
